@@ -143,7 +143,7 @@ func checkC08(c *Ctx) Meta {
 		var bad []string
 		n := 0
 		for fn := range c.AllFuncs {
-			for _, a := range fieldAccesses(fn) {
+			for _, a := range fieldAccessesShallow(fn) {
 				if a.Type == pkgMiner+".PoCMiner" && a.Field == "minedHeight" {
 					n++
 					if !allowed[outermost(fn).Name()] {
@@ -154,7 +154,7 @@ func checkC08(c *Ctx) Meta {
 		}
 		// and solveBlock/submitBlock are called only from generateBlocks
 		for fn := range c.AllFuncs {
-			allInstrs(fn, func(in ssa.Instruction) {
+			allInstrsShallow(fn, func(in ssa.Instruction) {
 				if callee := staticCallee(in); callee != nil && pkgOf(callee) == pkgMiner && (callee.Name() == "solveBlock" || callee.Name() == "submitBlock") {
 					if outermost(fn).Name() != "generateBlocks" {
 						bad = append(bad, callee.Name()+" called from "+FuncName(fn))
@@ -165,7 +165,7 @@ func checkC08(c *Ctx) Meta {
 		// entries are never removed or the map replaced after construction
 		forgets := false
 		for fn := range c.AllFuncs {
-			for _, a := range fieldAccesses(fn) {
+			for _, a := range fieldAccessesShallow(fn) {
 				if a.Type == pkgMiner+".PoCMiner" && a.Field == "minedHeight" && (a.Kind == "mapdelete" || (a.Kind == "store" && outermost(fn).Name() != "NewPoCMiner")) {
 					forgets = true
 					c.Bad("C08-SUBMIT", "minedHeight:grows-only", c.Pos(a.In.Pos()), "a height already mined is removed from the double-mining set: after a reorganisation that offers it again the miner mines the same height a second time")
@@ -191,7 +191,7 @@ func checkC08(c *Ctx) Meta {
 func checkBestProof(c *Ctx, f *ssa.Function) {
 	// the returned template
 	var tmpl *ssa.Alloc
-	allInstrs(f, func(in ssa.Instruction) {
+	allInstrsNew(f, func(in ssa.Instruction) {
 		if a, ok := in.(*ssa.Alloc); ok && a.Heap && strings.HasSuffix(a.Type().String(), ".ProofTemplate") {
 			tmpl = a
 		}
@@ -200,6 +200,10 @@ func checkBestProof(c *Ctx, f *ssa.Function) {
 		c.Bad("C08-FILTER", "syncGetBestProof:anchor", c.Pos(f.Pos()), "reason=anchor-missing: no ProofTemplate constructed")
 		return
 	}
+	// the slot loop may sit in a phase helper the reference tree does not have: the round's rules are
+	// evaluated in the function that builds the template (values still trace back through its parameters)
+	f0 := f
+	f = hostFn(f0, tmpl)
 	var proofStore, timeStore *ssa.Store
 	for _, a := range fieldAccesses(f) {
 		if a.Kind == "store" && a.Base == ssa.Value(tmpl) {
@@ -235,7 +239,7 @@ func checkBestProof(c *Ctx, f *ssa.Function) {
 					}
 				}
 				// the binding filter is applied against the same template
-				if !backSlice(b.Call.Args[1]).hasParam(f, "pocTemplate") {
+				if bs1 := backSlice(b.Call.Args[1]); !bs1.hasParam(f, "pocTemplate") && !bs1.hasParam(f0, "pocTemplate") {
 					ok = false
 					why = "binding is checked against a different template"
 				}
@@ -474,7 +478,7 @@ func checkBestProof(c *Ctx, f *ssa.Function) {
 				return false
 			}
 			for _, st := range sel.States {
-				if st.Dir == types.RecvOnly && backSlice(st.Chan).hasParam(f, "quit") {
+				if st.Dir == types.RecvOnly && (backSlice(st.Chan).hasParam(f, "quit") || backSlice(st.Chan).hasParam(f0, "quit")) {
 					return true
 				}
 			}
@@ -859,7 +863,7 @@ func checkLoopVarCapture(c *Ctx, rule string, pkgs []string) {
 	sort.Slice(fns, func(i, j int) bool { return FuncName(fns[i]) < FuncName(fns[j]) })
 	for _, fn := range fns {
 		ord := 0
-		allInstrs(fn, func(in ssa.Instruction) {
+		allInstrsShallow(fn, func(in ssa.Instruction) {
 			mc, ok := in.(*ssa.MakeClosure)
 			if !ok || !blockReentered(fn, mc) {
 				return
@@ -954,7 +958,7 @@ func checkV2EarliestSlot(c *Ctx, rule string) {
 		if pkgOf(fn) != pkgMinerV2 {
 			continue
 		}
-		for _, cl := range callsIn(fn, "sync/atomic.StoreUint64") {
+		for _, cl := range callsInShallow(fn, "sync/atomic.StoreUint64") {
 			if backSlice(cl.Call.Args[1]).hasFieldNamed("Slot") {
 				f, upd = fn, cl
 			}
@@ -1017,7 +1021,7 @@ func checkNoCopiedReceiver(c *Ctx, rule string, pkgs []string) {
 			continue
 		}
 		fn := fn
-		allInstrs(fn, func(in ssa.Instruction) {
+		allInstrsShallow(fn, func(in ssa.Instruction) {
 			mc, ok := in.(*ssa.MakeClosure)
 			if !ok {
 				return
